@@ -277,6 +277,7 @@ enum ModelOut {
 fn model_replay(cfg: &Cfg, script: &[Outcome]) -> ModelOut {
     let mut src = Replay { mask: cfg.mask, outs: script, pos: 0 };
     let mut m = Model::new(&mut src, cfg.sign_first);
+    m.sign_probe = Some(sign_first_for);
     m.gauss_t = cfg.gauss_t.clone();
     match m.run(cfg.top, &cfg.arg) {
         Ok(want) => {
@@ -422,6 +423,7 @@ pub fn configs(sign_first: bool) -> Vec<Cfg> {
 fn run_generated(ctx: &mut Ctx, st: &mut Stats, cfg: &Cfg, rng: &mut Rng64, shape: Shape, tag: &str) -> bool {
     let mut src = Generate::new(cfg.mask, rng, shape);
     let mut m = Model::new(&mut src, cfg.sign_first);
+    m.sign_probe = Some(sign_first_for);
     m.gauss_t = cfg.gauss_t.clone();
     m.cap = 60_000;
     let r = m.run(cfg.top, &cfg.arg);
@@ -850,6 +852,7 @@ pub fn part6_tapes(ctx: &mut Ctx, sign_first: bool) {
         // reference
         let mut src = TapeSrc { tape: &tape, pos: 0, draws: 0, skip_trivial: false };
         let mut m = Model::new(&mut src, sign_first);
+        m.sign_probe = Some(sign_first_for);
         if top == Layer::DiscreteGaussian {
             m.gauss_t = gauss_ts[((i / 2) as usize) % extra.len()].clone();
         }
@@ -905,6 +908,7 @@ pub fn part6_tapes(ctx: &mut Ctx, sign_first: bool) {
                 if got != want {
                     let mut src2 = TapeSrc { tape: &tape, pos: 0, draws: 0, skip_trivial: true };
                     let mut m2 = Model::new(&mut src2, sign_first);
+                    m2.sign_probe = Some(sign_first_for);
                     if top == Layer::DiscreteGaussian {
                         m2.gauss_t = gauss_ts[((i / 2) as usize) % extra.len()].clone();
                     }
